@@ -57,6 +57,29 @@ CLAIMS["C03"] = dict(
          "are unreachable.",
     design="3/C03")
 
+CLAIMS["C02"] = dict(
+    technique="metamorphic relation (node splitting built by the harness) "
+              "over exhaustively enumerated small graphs and "
+              "Hypothesis-generated graphs, weights, nodes and proportions",
+    text="Every public nsi_* measure of Network and InteractingNetworks "
+         "(a completeness assertion fails the harness when a new one is "
+         "neither in the table nor explicitly out of scope) is evaluated on "
+         "a network and on its split built independently by the harness: "
+         "global values equal, per-node values equal on untouched nodes and "
+         "on both twins, pairwise values equal on untouched pairs; "
+         "undirected, directed (in/out/bil/motif), link-weighted, "
+         "typical-weight-corrected and two-subnetwork variants (both "
+         "argument orders, arbitrary list order), iterated splits; "
+         "splitted_copy() itself is compared with the harness's "
+         "construction incl. link attributes. Thorough tier enumerates all "
+         "graphs <=5 nodes undirected / <=4 directed x all nodes x 3 "
+         "proportions x all bipartitions; beyond that sampled.",
+    note="Trusted: the harness's split construction (20 lines). Known "
+         "finding KF-C02-1 (unreachable pairs in cross closeness / path "
+         "length) is excluded by signature and re-demonstrated from its "
+         "replay on every run.",
+    design="3/C02")
+
 NOT_CLAIMED = {}
 
 
